@@ -36,7 +36,10 @@ def run(ctx):
     ctx.step(ownership, ctx)
     ctx.step(common.rcu_writer_guard, ctx, "C13.erase-once")
     from . import c05
-    ctx.step(c05.unlink_first, ctx, "C13.unlink", nothrow_after_unlink=True)
+    # ~rcu_list frees every node that is still linked; if it SKIPS nodes marked deleted (they "belong to the log"), a node
+    # must never be marked without also getting its record and being unlinked: erase then has to be all-or-nothing
+    skips = dtor_skips_marked(ctx)
+    ctx.step(c05.unlink_first, ctx, "C13.unlink", nothrow_after_unlink=True, all_or_nothing=skips)
     ctx.step(c05.register, ctx, "C13.register")
     # what erase logged is actually reclaimed: the release path frees the older records from the cursor it scanned and
     # re-links the own record past exactly what it freed (nothing is cut off unfreed)
@@ -52,6 +55,23 @@ def run(ctx):
 
 
 RCU = "gmlc::libguarded::rcu_list"
+
+
+def dtor_skips_marked(ctx):
+    """does ~rcu_list make the destruction of a linked node depend on node::deleted?"""
+    for f in ctx.fb.functions(rec=RCU):
+        if f.kind != "dtor":
+            continue
+        for st in f.stmts.values():
+            if st["k"] == "CallExpr" and re.match(r"^std::allocator_traits<.*>::(destroy|deallocate)$", callee_fq(st)) and \
+                    len(st["args"]) > 1 and "zombie_list_node" not in (f.s(st["args"][1]) or {}).get("t", ""):
+                for a in f.ancestors(st):
+                    if a["k"] == "IfStmt" and a.get("cond") and any(
+                            d["k"] == "MemberExpr" and d["m"].get("name") == "deleted" for d in f.descendants(f.s(a["cond"]))):
+                        ctx.note("~rcu_list frees a linked node only when it is not marked deleted (%s): erase is held to "
+                                 "all-or-nothing marking" % f.loc(st))
+                        return True
+    return False
 
 
 def retire_once(ctx, rid="C13.retire-once"):
